@@ -125,6 +125,18 @@ Theorem response_conforms_to_advertised :
 Proof. exact truthful_conforms. Qed.
 Print Assumptions response_conforms_to_advertised.
 
+(** Validation cannot crash on any built schema that passes the harness's well-formedness check, whatever
+    the query: [xwf] implies the closedness [validation_never_crashes] assumes (field types and union
+    members are defined output types), so that premise is one the correspondence decides on every
+    generated schema. *)
+Theorem validation_never_crashes_on_built_schemas :
+  forall (v : variant) (doc : gdoc) (vars : jargs) (q : query) (c : nat) (x : xschema) (root s : string)
+         (fs : list (string * (tref * xargs))) (k : option string),
+    convert v doc vars = ROk (q, c) -> xwf x = true -> lookup root x = Some (XObject s fs k) ->
+    is_crash (prepare v (erase x) root q) = false.
+Proof. exact validation_never_crashes_built. Qed.
+Print Assumptions validation_never_crashes_on_built_schemas.
+
 (** The limit of the introspection query, exactly: a type reference with at most [ref_depth - 1 = 7]
     List/NonNull wrappers is read back as itself; a deeper one is cut off by the TypeRef fragment and the
     reader fails – it never reconstructs a different type. *)
